@@ -127,6 +127,22 @@ class C03(Prop):
         tree = g["coordinates"]
         if typ in ("LineString",) and rng.random() < 0.3:
             tree = list(reversed(tree))
+        if typ in ("LineString", "MultiLineString") and rng.random() < 0.12:
+            # first and last vertex at the same time: a single line is left as it is (idempotent normal form), a member of a
+            # multi-line is not strictly forward and must be rejected
+            line = tree if typ == "LineString" else tree[0]
+            line[-1] = [line[0][0], line[-1][1]]
+        if typ == "BoundingBox" and rng.random() < 0.4:
+            # corners in any order, also with one degenerate axis: the normal form has start <= end and low <= high
+            if rng.random() < 0.5:
+                tree[0], tree[2] = tree[2], tree[0]
+            if rng.random() < 0.5:
+                tree[1], tree[3] = tree[3], tree[1]
+            k = rng.random()
+            if k < 0.25:
+                tree[2] = tree[0]
+            elif k < 0.5:
+                tree[3] = tree[1]
         r = rng.random()
         kind = "valid"
         if r < 0.6:
